@@ -204,6 +204,25 @@ pub open spec fn cat_range_of(p: Prov, ty: CategoryType, h: int, r: EepromRange)
     &&& r.end as int == (if r.byte_pos + 2 * le16_at(p, 2 * h + 2) > 0xffff { 0xffff } else { r.byte_pos + 2 * le16_at(p, 2 * h + 2) })
 }
 
+/// The category walk as the property describes it (optional categories in any order, unknown ones skipped by their length
+/// word, End marker 0xffff) plus the documented heuristic of the code (give up after 32 empty categories; give up when the chain
+/// leaves the 64 Ki word address space): header address of the FIRST category of type `ty` reachable from word address w,
+/// having seen `e` empty categories so far.
+pub open spec fn cat_walk(p: Prov, w: int, ty: CategoryType, e: int) -> Option<int>
+    decreases 0x10000 - w when w >= 0
+{
+    if w + 2 > 0xffff { None }
+    else {
+        let len = le16_at(p, 2 * w + 2);
+        let e2 = if len == 0 { e + 1 } else { e };
+        if e2 >= 32 { None }
+        else if cat_hdr_type(p, w) == ty { Some(w) }
+        else if cat_hdr_type(p, w) == CategoryType::End { None }
+        else if w + 2 + len > 0xffff { None }
+        else { cat_walk(p, w + 2 + len, ty, e2) }
+    }
+}
+
 /// fixed-position EEPROM records (field layouts: derive output, C19); only their packed length matters here
 pub struct SubDeviceIdentity { pub _p: u8 }
 impl SubDeviceIdentity {
@@ -262,17 +281,30 @@ impl SubDeviceEeprom {
         r is Ok && r->Ok_0 is Some ==> r->Ok_0->Some_0.wf() && r->Ok_0->Some_0.reader == self.provider,
         // Some(range) => the range is the data window of a category header of the requested type found in the chain
         r is Ok && r->Ok_0 is Some ==> exists|h: int| cat_range_of(self.provider, category, h, r->Ok_0->Some_0) && #[trigger] cat_hdr_type(self.provider, h) == category,
+        // BOTH directions: the category is found iff the walk over the stored chain finds it, and it is the FIRST such header
+        r is Ok ==> (match cat_walk(self.provider, 0x40, category, 0) {
+            Some(h) => r->Ok_0 is Some && cat_range_of(self.provider, category, h, r->Ok_0->Some_0),
+            None => r->Ok_0 is None,
+        }),
 @before "match category_type {"
     proof { assert(cat_hdr_type(self.provider, h0) == category_type); }
 @loop_start 0
     let ghost h0: int = word_addr as int;
+    let ghost e0: int = num_empty_categories as int;
+    let ghost walk0 = cat_walk(self.provider, 0x40, category, 0);
+    proof { assert(walk0 == cat_walk(self.provider, h0, category, e0)); }
 @loop 0
     invariant_except_break
         num_empty_categories < 32,
+        cat_walk(self.provider, 0x40, category, 0) == cat_walk(self.provider, word_addr as int, category, num_empty_categories as int),
     invariant
         self.wf(), reader.wf(), reader.mem_eq(&self.provider),
         word_addr >= 0x40,
     ensures
+        __brk0 is Ok ==> (match cat_walk(self.provider, 0x40, category, 0) {
+            Some(h) => __brk0->Ok_0 is Some && cat_range_of(self.provider, category, h, __brk0->Ok_0->Some_0),
+            None => __brk0->Ok_0 is None,
+        }),
         __brk0 is Ok && __brk0->Ok_0 is Some ==> __brk0->Ok_0->Some_0.wf() && __brk0->Ok_0->Some_0.reader == self.provider,
         __brk0 is Ok && __brk0->Ok_0 is Some ==> exists|h: int| cat_range_of(self.provider, category, h, __brk0->Ok_0->Some_0) && #[trigger] cat_hdr_type(self.provider, h) == category,
     decreases 0x10000 - word_addr
